@@ -23,10 +23,10 @@ _COUNTS = {}
 _STATE = {'write_seq': 0, 'in_write': None, 'gen_seq': 0}
 
 
-def emit(kind, **kw):
+def emit(_event_name, **kw):
     if _EV_FD is None:
         return
-    kw['ev'] = kind
+    kw['ev'] = _event_name
     kw['t'] = time.monotonic()
     kw['pid'] = os.getpid()
     kw['tid'] = threading.get_ident()
@@ -158,6 +158,7 @@ def install(mods):
                      bd=None if after is None else hashlib.blake2b(
                          after, digest_size=8).hexdigest(),
                      lines=nlines,
+                     has_fresh=(after is not None and b'__fresh' in after),
                      ld=leaf_digest(exprs),
                      td=None if after is None else text_digest(
                          after.decode('utf-8', 'replace')),
@@ -221,6 +222,67 @@ def install(mods):
         cons_check.__qualname__ = 'Consumer.check'
         cons_check.__module__ = orig_cons_check.__module__
         hier.Consumer.check = cons_check
+
+    # ---- lexical closure / re-declaration of every hierarchical candidate
+    if 'closure' in mon:
+        from vlib import refreader, refmodel
+        orig_apply = hier.apply_simp
+        orig_cc = hier.Consumer.check
+
+        def declared_counts(exprs):
+            c = {}
+            for e in exprs:
+                d = getattr(e, 'data', None)
+                if isinstance(d, tuple) and len(d) >= 2 and \
+                        isinstance(d[0].data, str) and d[0].data in (
+                            'declare-const', 'declare-fun', 'define-fun') \
+                        and isinstance(d[1].data, str):
+                    c[d[1].data] = c.get(d[1].data, 0) + 1
+            return c
+
+        def apply_checked(exprs, simp):
+            out = orig_apply(exprs, simp)
+            try:
+                emit('cand_checked')
+                name = _STATE.get('task_name')
+                if isinstance(out, list) and out is not exprs:
+                    # declarations the proposal itself introduces must be
+                    # of symbols the input does not declare yet
+                    before = declared_counts(exprs)
+                    again = []
+                    for v in getattr(simp, 'fresh_vars', []) or []:
+                        d = getattr(v, 'data', None)
+                        if isinstance(d, tuple) and len(d) >= 2 and \
+                                isinstance(d[1].data, str) and \
+                                before.get(d[1].data, 0) >= 1:
+                            again.append(d[1].data)
+                    if again:
+                        emit('badcand', kind='redeclares-existing-symbol',
+                             mutator=name, symbols=again[:4],
+                             text=nodeio.write_smtlib_to_str(out)[:1500])
+                    text = nodeio.write_smtlib_to_str(out)
+                    tree = refreader.norm_tree(refmodel.to_nested_list(out))
+                    try:
+                        back = refreader.norm_tree(refreader.read(text))
+                    except refreader.LexError:
+                        back = None
+                    if back != tree:
+                        emit('badcand', kind='not-lexically-closed',
+                             mutator=name, text=text[:1500])
+            except Exception as e:  # noqa
+                emit('monitor_error', where='closure', error=repr(e))
+            return out
+
+        hier.apply_simp = apply_checked
+
+        def cc_named(self, task):
+            _STATE['task_name'] = task.name
+            return orig_cc(self, task)
+
+        cc_named.__name__ = 'check'
+        cc_named.__qualname__ = 'Consumer.check'
+        cc_named.__module__ = orig_cc.__module__
+        hier.Consumer.check = cc_named
 
     # ---- generators (C13 hook) and ddmin task mutator join
     if 'gen' in mon:
